@@ -106,7 +106,7 @@ E0 == [op |-> "none", out |-> "ok", nopt |-> 0, argsame |-> TRUE,
        rxhi |-> "none", binfail |-> FALSE, contnan |-> FALSE,
        val |-> "none", kwvals |-> <<>>, haspre |-> FALSE, streq |-> FALSE,
        orphan |-> FALSE, ret |-> "none", expect |-> "none", tree |-> FALSE,
-       pseudo |-> FALSE,
+       pseudo |-> FALSE, details |-> FALSE,
        retnum |-> [m1 |-> FALSE, zero |-> FALSE, inrange |-> FALSE]]
 
 \* the canonical successor must satisfy the relational contract
@@ -152,13 +152,24 @@ EvPre(x, p, op) ==
              !.out = IF p \in BadPipes THEN "raise" ELSE "ok",
              !.streq = (x.pipe_fp = p), !.haspre = (op = "fit")]
 
+\* a request that also asks for the details re-runs the pipeline even when
+\* it is the one in effect; results are dropped (FitProperties.reset), data
+\* and settings stay
+DetailsIn(x, p) ==
+  IF p \in BadPipes \/ x.pipe_fp # p THEN PreIn(x, p)
+  ELSE [x EXCEPT !.res = None, !.scan = None, !.rate = None]
+
+\* via = "details": fresh arguments and ret_details=True (the details are a
+\* by-product: the state after the call is that of a plain request)
 ApplyPre(p, via) ==
-  /\ via \in {"obj", "fresh"}
+  /\ via \in {"obj", "fresh", "details"}
   /\ p \in Pipes \cup BadPipes
   /\ (via = "obj") => (W.mutate_pl /\ p = plobj)
-  /\ st' = PreIn(st, p)
+  /\ st' \in (IF via = "details" THEN {PreIn(st, p), DetailsIn(st, p)}
+                                   ELSE {PreIn(st, p)})
   /\ UNCHANGED <<plobj, piobj>>
-  /\ Conforms(st, EvPre(st, p, "apply"), st')
+  /\ Conforms(st, [EvPre(st, p, "apply") EXCEPT !.details = (via = "details")],
+              st')
 
 \* ------------------------------------------------------------- settings
 SetKey(k, v, via) ==
@@ -297,7 +308,7 @@ Rate(r) ==
 Next ==
   \/ \E p \in Pipes \cup BadPipes : MutatePL(p)
   \/ \E q \in PiVals : MutatePI(q)
-  \/ \E p \in Pipes \cup BadPipes, via \in {"obj", "fresh"} : ApplyPre(p, via)
+  \/ \E p \in Pipes \cup BadPipes, via \in {"obj", "fresh", "details"} : ApplyPre(p, via)
   \/ \E k \in Keys, via \in {"obj", "fresh"} : \E v \in Vals(k) : SetKey(k, v, via)
   \/ SetUnknown
   \/ Fit0
